@@ -157,15 +157,6 @@ func (idx *hybridSearchIndex) addInternal(id uint32, vector []float32, text stri
 		info.hasVector = true
 	}
 
-	// Add to text index
-	if idx.textIndex != nil && text != "" {
-		if err := idx.textIndex.Add(id, text); err != nil {
-			idx.rollbackAdd(id, info)
-			return fmt.Errorf("failed to add to text index: %w", err)
-		}
-		info.hasText = true
-	}
-
 	// Add to metadata index
 	if idx.metadataIndex != nil && metadata != nil && len(metadata) > 0 {
 		metadataNode := NewMetadataNodeWithID(id, metadata)
@@ -174,6 +165,18 @@ func (idx *hybridSearchIndex) addInternal(id uint32, vector []float32, text stri
 			return fmt.Errorf("failed to add to metadata index: %w", err)
 		}
 		info.hasMetadata = true
+	}
+
+	// Add to text index. The text goes last: a text index keeps counting a
+	// removed document in its corpus statistics until its next flush, so a
+	// text addition cannot be rolled back without changing the scores of
+	// other documents; vector and metadata additions can.
+	if idx.textIndex != nil && text != "" {
+		if err := idx.textIndex.Add(id, text); err != nil {
+			idx.rollbackAdd(id, info)
+			return fmt.Errorf("failed to add to text index: %w", err)
+		}
+		info.hasText = true
 	}
 
 	idx.docInfo[id] = info
@@ -186,6 +189,9 @@ func (idx *hybridSearchIndex) addInternal(id uint32, vector []float32, text stri
 func (idx *hybridSearchIndex) rollbackAdd(id uint32, info *documentInfo) {
 	if info.hasVector {
 		_ = idx.vectorIndex.Remove(*NewVectorNodeWithID(id, nil))
+	}
+	if info.hasMetadata {
+		_ = idx.metadataIndex.Remove(*NewMetadataNodeWithID(id, nil))
 	}
 	if info.hasText {
 		_ = idx.textIndex.Remove(id)
